@@ -122,6 +122,47 @@ func TestBounded(t *testing.T) {
 			t.Errorf("FullSource(%q) = %q, want it left as written", s, got)
 		}
 	}
+	// anything with a colon in its first path segment - a scheme of any letter case, an
+	// scp-style host (with or without user, upper-case or numeric host), a drive - is left as written
+	hosts := []string{"github.com", "GitHub.com", "10.0.0.1", "Git.example.com", "HOST", "h", "my-host.internal", "1host"}
+	schemes := []string{"https", "HTTPS", "Https", "ssh", "SSH", "file", "git+ssh", "x-y.z", "s3", "S3"}
+	paths := []string{"thing", "thing.git", "org/thing", "org/thing.git#v1.2.0", "a/b/c", "thing#main", ""}
+	for _, pth := range paths {
+		for _, h := range hosts {
+			for _, src := range []string{h + ":" + pth, "git@" + h + ":" + pth, "user.name@" + h + ":" + pth} {
+				if strings.HasSuffix(src, ":") {
+					continue
+				}
+				cases++
+				if got := (&pipeline.Plugin{Source: src}).FullSource(); got != src {
+					failures++
+					t.Errorf("FullSource(%q) = %q, want it left as written (host:path form)", src, got)
+				}
+			}
+		}
+		for _, sc := range schemes {
+			for _, src := range []string{sc + "://example.com/" + pth, sc + ":" + pth, sc + ":///" + pth} {
+				if strings.HasSuffix(src, ":") {
+					continue
+				}
+				cases++
+				if got := (&pipeline.Plugin{Source: src}).FullSource(); got != src {
+					failures++
+					t.Errorf("FullSource(%q) = %q, want it left as written (scheme form)", src, got)
+				}
+			}
+		}
+		for _, d := range []string{"C:", "c:", "Z:"} {
+			for _, sep := range []string{"\\", "/"} {
+				src := d + sep + strings.ReplaceAll(pth, "/", sep)
+				cases++
+				if got := (&pipeline.Plugin{Source: src}).FullSource(); got != src {
+					failures++
+					t.Errorf("FullSource(%q) = %q, want it left as written (drive form)", src, got)
+				}
+			}
+		}
+	}
 	// json.Marshal(plugin) is a single-entry object keyed by the canonical source
 	for _, s := range []string{"docker#v1", "org/thing", "a/b/c", "./x", "thing"} {
 		for _, cfg := range []any{nil, map[string]any{}, map[string]any{"k": 1}, []any{}} {
